@@ -1,5 +1,6 @@
 import PoxModel.Proofs.Match
 import PoxModel.Proofs.FlowTable
+import PoxModel.Proofs.FlowTableQ
 import PoxModel.Proofs.MatchSubsume
 import PoxModel.Proofs.MatchSelf
 import PoxModel.Proofs.MatchV
@@ -7,7 +8,7 @@ import PoxModel.Proofs.Frame
 /-! # C03 — flow match and lookup semantics agree with OpenFlow 1.0
 
 Property theorems only.  Model: `Model/Match.lean` (`ofp_match`), `Model/FlowTable.lean` (`FlowTable` and its operations, for any sort
-key), `Model/MatchV.lean` (the code variants); standard: `Spec/OF10Match.lean`; lemmas: `Proofs/MatchBits`, `Match`, `FlowTable`,
+key), `Model/FlowTableQ.lean` (its read-only calls), `Model/MatchV.lean` (the code variants); standard: `Spec/OF10Match.lean`; lemmas: `Proofs/MatchBits`, `Match`, `FlowTable`,
 `Subsume`, `MatchSubsume`, `MatchSelf`, `MatchV`.
 
 **Which variant is the code.**  `v : Variant` records which of the repairs D37 / D38 / D26 / D36 / C03-K7 a tree has.  `/repo` HEAD has all
@@ -24,6 +25,7 @@ makes the harness pick that variant, and the `_defect` theorems say which inputs
 | a frame matches iff every non-wildcarded field whose prerequisites are met equals the header field, IP under the prefix mask | `matches_iff_current` |
 | fields extracted as the specification prescribes (VLAN, ARP, ICMP, fragments) | `extract_ok_current`, `extract_rarp_current` |
 | lookup returns the matching entry of highest priority; miss only when none matches — after every history of table operations | `history_lookup_wire_current`, `lookup_spec_wire_current`, `miss_iff_wire_current`, `history_lookup_sequence_wire` |
+| … also when statistics requests and other read-only calls are interleaved with the table operations | `history_lookup_wire_queries_current`, `history_queries_erase`, `query_between`, `history_sorted_queries`, `query_reports` |
 | exact-match entries outrank every wildcarded one | `exact_outranks_current`, `exact_iff_current` |
 | (mechanism) table sorted after every history, insertion position | `table_sorted_current`, `add_position`, `removal_sublist` |
 | (used by C04) non-strict selection is subsumption | `subsumes_iff_current`, `subsumes_iff_forall` |
@@ -155,6 +157,51 @@ theorem history_lookup_sequence_wire (v : Variant) (bothWays : Bool) (ops : List
   refine ⟨v.entryForPacket (run v.effectivePriority v.mww bothWays ops) frames[i].1 frames[i].2, by simp [Variant.lookupSeq, hi], ?_⟩
   obtain ⟨h1, h2⟩ := hf frames[i] (List.getElem_mem hi)
   exact history_lookup_wire v bothWays ops hadd frames[i].1 frames[i].2 h1 h2
+
+/-! ## histories in which calls that only read are interleaved
+
+Flow / aggregate / table statistics (through the switch or directly `flow_stats`, `aggregate_stats`, `matching_entries`), `len`,
+iteration over `entries`, printing, `check_for_overlapping_entry`, and the switch's requests that do not concern the table:
+`TableOps.Query` (`Model/FlowTableQ.lean`).  In the model such a call returns the table it was given (`stepC`); the harness puts
+them between any two steps of its histories and compares table and lookups after each with the model — so "reading changes
+nothing" is part of the tie, and everything proved about histories of mutating calls holds for the mixed ones. -/
+
+open TableOps in
+/-- the reading calls can be struck out of a history: the table is the one the mutating calls alone produce -/
+theorem history_queries_erase (v : Variant) (bothWays : Bool) (calls : List (Call α)) :
+    runC v.effectivePriority v.mww bothWays calls = run v.effectivePriority v.mww bothWays (mutations calls) :=
+  runC_eq _ _ _ calls
+
+open TableOps in
+/-- a reading call between any two steps of a history changes nothing that follows -/
+theorem query_between (v : Variant) (bothWays : Bool) (pre post : List (Call α)) (q : Query α) :
+    runC v.effectivePriority v.mww bothWays (pre ++ .query q :: post) = runC v.effectivePriority v.mww bothWays (pre ++ post) := by
+  rw [history_queries_erase, history_queries_erase, mutations_append, mutations_append]; rfl
+
+open TableOps in
+/-- what a reading call reports on are entries of the table, in table order; for the statistics requests exactly the entries the
+    non-strict test selects -/
+theorem query_reports (v : Variant) (bothWays : Bool) (tbl : Table α) (q : Query α) :
+    (answer v.mww bothWays tbl q).Sublist tbl ∧
+    ∀ m portOk, q = .select m portOk → ∀ e, e ∈ answer v.mww bothWays tbl q ↔ e ∈ tbl ∧ portOk e.data = true ∧ v.mww true m e.mtch = true := by
+  refine ⟨answer_sublist _ _ tbl q, ?_⟩
+  rintro m portOk rfl e
+  exact mem_answer_select _ _ tbl m portOk e
+
+open TableOps in
+/-- the table is sorted after every history of mutating and reading calls -/
+theorem history_sorted_queries (v : Variant) (bothWays : Bool) (calls : List (Call α)) :
+    SortedBy v.effectivePriority (runC v.effectivePriority v.mww bothWays calls) := by
+  rw [history_queries_erase]; exact history_sorted v bothWays (mutations calls)
+
+open TableOps in
+/-- **Lookup against the standard after every history of mutating and reading calls** -/
+theorem history_lookup_wire_queries (v : Variant) (bothWays : Bool) (calls : List (Call Spec.Flow))
+    (hadd : ∀ e ∈ added (mutations calls), e = v.toEntry e.data ∧ v.FlowOk e.data)
+    (p : PHdr) (port : Nat) (hr : v.regular p = true) (hpt : v.tosDscp = false → pktTos p % 4 = 0) :
+    Spec.IsBestSig ((runC v.effectivePriority v.mww bothWays calls).map (·.data)) (Spec.headers p port)
+      ((v.entryForPacket (runC v.effectivePriority v.mww bothWays calls) p port).map (·.data)) := by
+  rw [history_queries_erase]; exact history_lookup_wire v bothWays (mutations calls) hadd p port hr hpt
 
 /-! ## the variants: what each repair buys -/
 
@@ -301,6 +348,16 @@ theorem history_lookup_wire_current (bothWays : Bool) (ops : List (Op Spec.Flow)
     Spec.IsBestSig ((run Variant.current.effectivePriority Variant.current.mww bothWays ops).map (·.data)) (Spec.headers p port)
       ((Variant.current.entryForPacket (run Variant.current.effectivePriority Variant.current.mww bothWays ops) p port).map (·.data)) :=
   history_lookup_wire Variant.current bothWays ops (fun e he => ⟨(hadd e he).1, flowOk_current _ (hadd e he).2⟩) p port hr
+    (fun h => absurd h (by decide))
+
+open TableOps in
+/-- **Lookup after every history in which statistics requests and other reading calls are interleaved** with the table operations -/
+theorem history_lookup_wire_queries_current (bothWays : Bool) (calls : List (Call Spec.Flow))
+    (hadd : ∀ e ∈ added (mutations calls), e = Variant.current.toEntry e.data ∧ e.data.priority ≤ 0xffff)
+    (p : PHdr) (port : Nat) (hr : regularG false p = true) :
+    Spec.IsBestSig ((runC Variant.current.effectivePriority Variant.current.mww bothWays calls).map (·.data)) (Spec.headers p port)
+      ((Variant.current.entryForPacket (runC Variant.current.effectivePriority Variant.current.mww bothWays calls) p port).map (·.data)) :=
+  history_lookup_wire_queries Variant.current bothWays calls (fun e he => ⟨(hadd e he).1, flowOk_current _ (hadd e he).2⟩) p port hr
     (fun h => absurd h (by decide))
 
 /-- **Subsumption**: `a.matches_with_wildcards(b)` on two received flows is the standard's subsumption -/
@@ -681,6 +738,27 @@ def tcpFrameEf : PHdr := { tcpFrame with l3 := .ipv4 0x0a010101 0x0a020202 6 0xb
 example : (Variant.repaired.lookupSeq (TableOps.run Variant.repaired.effectivePriority Variant.repaired.mww true
       [.add (Variant.repaired.toEntry ⟨200, tosEntry⟩), .add (Variant.repaired.toEntry ⟨10, inPort1⟩)])
     [(tcpFrame, 1), (tcpFrameEf, 1), (tcpFrame, 1)]).map (fun r => r.map (·.data.priority)) = [some 10, some 200, some 10] := by decide
+
+-- histories with reading calls in between: a match-all statistics request, a filtered one, `len`, a request that does not concern
+-- the table — the table and the lookups are those of the mutating calls alone (the exact entry @1 still outranks the wildcarded @65535)
+def allWild : OfMatch := { zeroMatch with wildcards := wc [] 32 32 }
+def demoCalls : List (TableOps.Call Spec.Flow) :=
+  [.op (.add (Variant.current.toEntry ⟨100, inPort1⟩)), .query .all, .op (.add (Variant.current.toEntry ⟨1, tcpExact⟩)),
+   .query (.select (Variant.current.ofWire allWild) (fun _ => true)),
+   .op (.add (Variant.current.toEntry ⟨0xffff, { srcPrefix8 with wildcards := wc [.dlType] 32 32 }⟩)),
+   .query (.select (Variant.current.ofWire inPort1) (fun f => f.priority == 100)), .query .other, .op (.removeAt 9), .query .all]
+example : ∀ e ∈ TableOps.added (TableOps.mutations demoCalls), e = Variant.current.toEntry e.data ∧ e.data.priority ≤ 0xffff := by
+  intro e he
+  simp only [demoCalls, TableOps.mutations, TableOps.added, List.mem_cons, List.not_mem_nil, or_false] at he
+  rcases he with rfl | rfl | rfl <;> exact ⟨rfl, by decide⟩
+example : (TableOps.runC Variant.current.effectivePriority Variant.current.mww true demoCalls).map (·.priority) = [1, 0xffff, 100] := by decide
+example : ((TableOps.answer Variant.current.mww true (TableOps.runC Variant.current.effectivePriority Variant.current.mww true demoCalls)
+    (.select (Variant.current.ofWire allWild) (fun _ => true))).map (·.priority)) = [1, 0xffff, 100] ∧
+  ((TableOps.answer Variant.current.mww true (TableOps.runC Variant.current.effectivePriority Variant.current.mww true demoCalls)
+    (.select (Variant.current.ofWire inPort1) (fun _ => true))).map (·.priority)) = [1, 100] := by decide
+example : ((Variant.current.entryForPacket (TableOps.runC Variant.current.effectivePriority Variant.current.mww true demoCalls) tcpFrame 1).map (·.data.priority)) = some 1 ∧
+    ((Variant.current.entryForPacket (TableOps.runC Variant.current.effectivePriority Variant.current.mww true demoCalls) tcpFrame 2).map (·.data.priority)) = some 0xffff ∧
+    Variant.current.entryForPacket (TableOps.runC Variant.current.effectivePriority Variant.current.mww true demoCalls) (arpFrame 1) 2 = none := by decide
 
 -- `lookup_spec_wire_repaired` / `…_literal_repaired`: the demo flows satisfy the hypotheses (none of them wildcards an ignored field)
 example : (∀ f ∈ demoFlows, f.priority ≤ 0xffff ∧ f.mtch.nwTos % 4 = 0) ∧ (∀ f ∈ demoFlows, Spec.exactSig f.mtch = Spec.exact f.mtch) := by
